@@ -186,12 +186,12 @@ def _replay_cond_multikey(nrows):
     return replay
 
 
-def _body_cross(nrows, nfeat):
+def _body_cross(nrows, nfeat, fixed_keys=None):
     def body():
         import math
         from pyrepseq import stats
         from vlib import sym, symops as so
-        df, keys, feats = _table(sym, nrows, nfeat=nfeat)
+        df, keys, feats = _table(sym, nrows, nfeat=nfeat, fixed_keys=fixed_keys)
         groups = _groups(keys)
         if len(groups) < 2:
             return True              # squareform of an empty vector: outside the statement (needs two groups)
@@ -460,6 +460,10 @@ def conditions(tier):
     for nrows, nfeat in [(3, 1), (3, 2)] + ([(4, 1), (4, 2)] if T else []):
         out.append(Condition(f"C13/pc_grouped_cross/rows={nrows}/feat={nfeat}", _body_cross(nrows, nfeat), _replay_cross(nrows, nfeat),
                              budget=600 if not T else 3000, models=M, bounds=f"{nrows} rows, symbolic group keys, {nfeat} feature column(s)"))
+    # four and five groups (keys fixed, unsorted, free features): the pair order of the condensed vector differs between the two triangles from 4 groups on
+    for fk in [(2, 0, 3, 1, 0), (4, 1, 3, 0, 2)] + ([(5, 2, 0, 3, 1, 4)] if T else []):
+        out.append(Condition(f"C13/pc_grouped_cross/groups={len(set(fk))}/keys={''.join(map(str, fk))}", _body_cross(len(fk), 1, fk), _replay_cross(len(fk), 1),
+                             budget=600 if not T else 3000, models=M, bounds=f"{len(fk)} rows with the fixed unsorted group keys {fk}, free features"))
     for form in ("grouped-bins", "grouped-bins0", "cross-condensed-bins", "cross-condensed-bins0", "cross-square-bins", "cross-square-bins0"):
         for nrows in (3, 4):
             if nrows == 3 and form.startswith("grouped"):
